@@ -104,6 +104,8 @@ class Sum(Factory, Container):
 
     @inheritdoc(Container)
     def __iadd__(self, other):
+        if not isinstance(other, Sum):
+            raise ContainerException(f"cannot add {self.name} and {other.name}")
         self.entries += other.entries
         self.sum += other.sum
         return self
